@@ -64,8 +64,22 @@ StepRace(e) ==
         /\ LET h == HeadOf(obs) IN aLast' = <<h, obs[h][1], obs[h][2]>> /\ sLast' = <<h, obs[h][1], obs[h][2]>>
   /\ hist' = hist /\ scen' = scen /\ chainedT' = chainedT
 
+\* A's base write fails (state unchanged: appendStore.last is only advanced after a successful write, under
+\* the mutex), so B's Put of head+2 must be refused.
+StepFailRace(e) ==
+  /\ e.ev = "FailRace"
+  /\ LET obs == ObsBase(e.rows)
+         pb == PutOpC(State, <<e.b[1], e.b[2], e.b[3]>>, chainedT)
+     IN /\ alarms' = alarms \cup If(obs # base, {Alarm("Conformance", e, "store changed although the write failed")})
+                            \cup If(e.resB # pb.res /\ e.resB # "blocked", {Alarm("Conformance", e, "result of the second writer differs")})
+                            \cup If(e.resB = "blocked", {Alarm("PutBlocked", e, "second writer never returned")})
+                            \cup Monitors(base, obs, e)
+        /\ base' = obs
+        /\ LET h == HeadOf(obs) IN aLast' = <<h, obs[h][1], obs[h][2]>> /\ sLast' = <<h, obs[h][1], obs[h][2]>>
+  /\ hist' = hist /\ scen' = scen /\ chainedT' = chainedT
+
 TraceNext == /\ l <= Len(TraceLog)
-             /\ LET e == TraceLog[l] IN StepInit(e) \/ StepPut(e) \/ StepRestart(e) \/ StepRace(e)
+             /\ LET e == TraceLog[l] IN StepInit(e) \/ StepPut(e) \/ StepRestart(e) \/ StepRace(e) \/ StepFailRace(e)
              /\ l' = l + 1
 TraceSpec == TraceInit /\ [][TraceNext]_tvars
 AtEnd == l = Len(TraceLog) + 1 =>
